@@ -4,6 +4,7 @@ package c04
 
 import (
 	"fmt"
+	"math"
 
 	"pgregory.net/rapid"
 	"pipelined.dev/signal"
@@ -53,7 +54,7 @@ func Check(c *Case) kit.Result {
 			return kit.Result{}
 		}
 		for _, v := range c.Vals {
-			if v < 0 || v > 127 {
+			if v < 0 || v > 128 {
 				return kit.Result{}
 			}
 		}
@@ -63,7 +64,7 @@ func Check(c *Case) kit.Result {
 		return kit.Result{}
 	}
 	for _, v := range c.Vals {
-		if v < 0 || v > 127 {
+		if v < 0 || v > 128 {
 			return kit.Result{}
 		}
 	}
@@ -75,6 +76,14 @@ func Check(c *Case) kit.Result {
 // samples), so its capacity is whatever the runtime chose and need not be a
 // whole number of frames. AppendSample must fill it to exactly that capacity
 // and never change the capacity or the storage.
+// val maps a case value to a sample: 128 is the negative zero of floating types (0 for integer types).
+func val[T signal.SignalTypes](x int64) T {
+	if x == 128 {
+		return kit.As[T](kit.FV(math.Copysign(0, -1)))
+	}
+	return T(x)
+}
+
 func runGrown[T signal.SignalTypes](c *Case) (res kit.Result) {
 	C := c.C
 	if c.A >= C || c.B > 1<<12 {
@@ -107,7 +116,7 @@ func runGrown[T signal.SignalTypes](c *Case) (res kit.Result) {
 		before[i] = b.Sample(i)
 	}
 	for j := 0; j < c.N; j++ {
-		v := T(c.Vals[j%len(c.Vals)])
+		v := val[T](c.Vals[j%len(c.Vals)])
 		what := fmt.Sprintf("call %d AppendSample(%s) on a grown buffer (len=%d,cap=%d samples, %d ch)", j, kit.Str(v), ln, cp, C)
 		if p, pv := kit.Try(func() { b.AppendSample(v) }); p {
 			res.Failf("%s: panic: %v", what, pv)
@@ -182,7 +191,7 @@ func run[T signal.SignalTypes](c *Case) (res kit.Result) {
 		every = c.N/16 + 1
 	}
 	for j := 0; j < c.N; j++ {
-		v := T(c.Vals[j%len(c.Vals)])
+		v := val[T](c.Vals[j%len(c.Vals)])
 		what := fmt.Sprintf("call %d AppendSample(%s) on window(off=%d,len=%d,cap=%d samples, %d ch)", j, kit.Str(v), off, ln, cp, C)
 		if p, pv := kit.Try(func() { w.AppendSample(v) }); p {
 			res.Failf("%s: panic: %v", what, pv)
@@ -266,7 +275,7 @@ func Gen(t *rapid.T) *Case {
 	}
 	nv := rapid.IntRange(1, 6).Draw(t, "nvals")
 	for i := 0; i < nv; i++ {
-		c.Vals = append(c.Vals, int64(rapid.IntRange(0, 127).Draw(t, "v")))
+		c.Vals = append(c.Vals, int64(rapid.IntRange(0, 128).Draw(t, "v")))
 	}
 	return c
 }
